@@ -142,10 +142,12 @@ var wktPool = []struct{ path, typ string }{
 
 var numericOptionLines = []string{
 	"  option (o.ratio) = -2;", "  option (o.ratio) = 1.5;", "  option (o.dval) = -7;", "  option (o.sval) = -4;", "  option (o.ratio) = inf;", "  option (o.dval) = 3;",
+	"  option (o.uval) = 3000000000;", "  option (o.fval) = 4294967295;", "  option (o.u64) = 18446744073709551615;", "  option (o.i64) = -9223372036854775808;", "  option (o.sval) = -2147483648;",
 }
 
 var defaultFieldLines = []string{
 	"  optional float fl = %d [default = -3];", "  optional double db = %d [default = 2];", "  optional sint64 si = %d [default = -9];", "  optional float fn = %d [default = -inf];",
+	"  optional uint32 ud = %d [default = 4000000000];", "  optional fixed32 fd = %d [default = 2147483648];", "  optional uint64 ul = %d [default = 18446744073709551615];", "  optional sfixed32 sf = %d [default = -2147483648];",
 }
 
 var pkgPool = []string{"", "p", "p.q", "r", "p.q.s"}
@@ -296,7 +298,7 @@ func genCompileWLKinds(t *rapid.T, maxFiles int, kinds []int) CompileWL {
 			msg = append(msg, fmt.Sprintf("  option (o.tag) = \"m%d\";", i))
 			// numeric option values in several literal forms (the descriptor-proto
 			// input form re-reads them from uninterpreted options)
-			if k := rapid.IntRange(0, 7).Draw(t, "numOpt"); k < len(numericOptionLines) {
+			if k := rapid.IntRange(0, len(numericOptionLines)+1).Draw(t, "numOpt"); k < len(numericOptionLines) {
 				msg = append(msg, numericOptionLines[k])
 			}
 			if s.syntax != "proto3" && rapid.IntRange(0, 2).Draw(t, "rangeOpt") == 0 {
@@ -318,7 +320,7 @@ func genCompileWLKinds(t *rapid.T, maxFiles int, kinds []int) CompileWL {
 			}
 		}
 		if s.syntax == "proto2" {
-			if k := rapid.IntRange(0, 9).Draw(t, "defaults"); k < len(defaultFieldLines) {
+			if k := rapid.IntRange(0, len(defaultFieldLines)+4).Draw(t, "defaults"); k < len(defaultFieldLines) {
 				msg = append(msg, fmt.Sprintf(defaultFieldLines[k], fieldNo+20))
 			}
 		}
@@ -399,7 +401,7 @@ func genCompileWLKinds(t *rapid.T, maxFiles int, kinds []int) CompileWL {
 			Name:    "opts.proto",
 			Imports: []string{"google/protobuf/descriptor.proto"},
 			Text: "syntax = \"proto2\";\npackage o;\nimport \"google/protobuf/descriptor.proto\";\n" +
-				"extend google.protobuf.MessageOptions {\n  optional string tag = 50001;\n  optional float ratio = 50003;\n  optional double dval = 50004;\n  optional sint32 sval = 50005;\n}\n" +
+				"extend google.protobuf.MessageOptions {\n  optional string tag = 50001;\n  optional float ratio = 50003;\n  optional double dval = 50004;\n  optional sint32 sval = 50005;\n  optional uint32 uval = 50006;\n  optional fixed32 fval = 50007;\n  optional uint64 u64 = 50008;\n  optional int64 i64 = 50009;\n}\n" +
 				"extend google.protobuf.FileOptions {\n  optional int32 ftag = 50002;\n}\n" +
 				"extend google.protobuf.OneofOptions {\n  optional string otag = 50010;\n}\n" +
 				"extend google.protobuf.ExtensionRangeOptions {\n  optional string xlabel = 50030;\n}\n" +
